@@ -59,7 +59,11 @@ void h_wl_verify(void) {
             }
             if (ret == 1) __CPROVER_assert(g_bv_n == 1 && g_bv_ret == 1, "C16 whitelist_verify: accepts only on a positive Borromean verdict");
         }
+#ifdef EL_BOUND
+        if (ret == 1 && n_keys == EL_BOUND && gi == EL_BOUND - 1) REACH("wl verify accepts the largest ring of the bounded stand-in");
+#else
         if (ret == 1 && n_keys == 255 && gi == 254) REACH("wl verify accepts 255 keys");
+#endif
         if (ret == 1 && n_keys == 1) REACH("wl verify accepts 1 key");
         if (ret == 0 && g_bv_n == 1) REACH("wl verify negative verdict");
         if (ret == 0 && n_keys == 0 && sig.n_keys == 0) REACH("wl verify rejects the empty list");
